@@ -253,6 +253,9 @@ func checkC04(c C04Case, o *Obs) error {
 		if p := catch(func() { werr = b.Write(&w) }); p != nil || werr != nil {
 			return fmt.Errorf("record %d: Write failed: panic=%v err=%v", i, p, werr)
 		}
+		if err := samePlain(b.Write, w.Bytes()); err != nil {
+			return fmt.Errorf("record %d: %v", i, err)
+		}
 		if err := writeAfterFailure(b.Write, w.Bytes()); err != nil {
 			return fmt.Errorf("record %d: %v", i, err)
 		}
